@@ -41,6 +41,7 @@ type c18World struct {
 }
 
 func (w *c18World) cleanup() {
+	ix.Abort(w.w)
 	for _, d := range w.dbs {
 		d.Close()
 	}
